@@ -199,6 +199,23 @@ func c17(c *Ctx) {
 			}) {
 				carried(x.Common().Args[0], x)
 			}
+			// "not older" includes the installed version itself: v == current must be one of the ways into the upgrade choice
+			var eqEdgesIn []cfgx.Edge
+			for _, x := range cfgx.Calls(upd, func(ci ssa.CallInstruction) bool {
+				n := cfgx.CalleeName(ci)
+				return (strings.HasSuffix(n, "semver.Version).Equal") || strings.HasSuffix(n, "semver.Version).LessThan") || strings.HasSuffix(n, "semver.Version).Compare")) && ci.Common().Args[0] == v
+			}) {
+				t, f := cfgx.CallCondEdges(x)
+				switch {
+				case strings.HasSuffix(cfgx.CalleeName(x), ".Equal"):
+					eqEdgesIn = append(eqEdgesIn, t...)
+				case strings.HasSuffix(cfgx.CalleeName(x), ".LessThan"):
+					eqEdgesIn = append(eqEdgesIn, f...)
+					notOlder = append(notOlder, f...)
+				default:
+					eqEdgesIn = append(eqEdgesIn, t...) // a Compare: left to the comparison rules
+				}
+			}
 			up, down := 0, 0
 			outer := outermostLoopOf(upd, chk[0].Block())
 			for i, a := range adopt {
@@ -211,6 +228,8 @@ func c17(c *Ctx) {
 				switch {
 				case okU:
 					up++
+					rE, _ := cfgx.ReachableFromEdges(eqEdgesIn, a.at, nil, nil)
+					c.R.Check(rE && len(eqEdgesIn) > 0, load.FuncName(upd)+": the installed version itself counts as not older #"+itoa(i), c.pos(a.at.Pos()), "a version equal to the current one is accepted by the upgrade choice", "the upgrade choice is not reachable for a version equal to the current one: a satisfying installed version is replaced by a higher one")
 					// the first not-older version wins: the scan does not go on
 					if outer != nil {
 						var out []cfgx.Edge
@@ -626,6 +645,58 @@ func c17(c *Ctx) {
 			c.R.Check(good, site(g)+" after-AddNeighbors", c.pos(g.Pos()), "the parent constraints are read after from.AddNeighbors(to) recorded this parent", "to.GetParentConstraints() is read before the edge (and with it this parent's constraint) was added")
 		}
 	}
+	c.R.Rule("R17.9", "upgrading DAG: an edge never goes in without the parent's constraints reaching the node", 2,
+		"the constraints of a parent that is satisfied today never reach the dependency: a later upgrade picks a version that violates them")
+	if ae := c.method("internal/dag", "MapUpgradingDag", "AddEdge"); ae != nil {
+		to := ssa.Value(ae.Params[2])
+		through := map[*ssa.BasicBlock]bool{}
+		for _, x := range cfgx.Calls(ae, func(ci ssa.CallInstruction) bool { return strings.HasSuffix(cfgx.CalleeName(ci), ".AddParentConstraints") }) {
+			fromTo := false
+			for _, a := range cfgx.CallArgs(x) {
+				if flow.Default.Any(a, func(v ssa.Value) bool {
+					ci, ok := v.(ssa.CallInstruction)
+					return ok && strings.HasSuffix(cfgx.CalleeName(ci), ".GetParentConstraints") && flow.Root(underIface(cfgx.Receiver(ci))) == to
+				}) {
+					fromTo = true
+				}
+			}
+			c.R.Check(fromTo, site(x)+" parent constraints of the edge", c.pos(x.Pos()), "the constraints handed on are those of the edge's target as declared by this parent", "AddParentConstraints is not given to.GetParentConstraints()")
+			if fromTo {
+				through[x.Block()] = true
+			}
+		}
+		n := 0
+		for _, x := range cfgx.Calls(ae, func(ci ssa.CallInstruction) bool { return strings.HasSuffix(cfgx.CalleeName(ci), ".AddNeighbors") }) {
+			n++
+			if through[x.Block()] {
+				c.R.OK(site(x)+" with constraints", c.pos(x.Pos()), "the constraints are handed on in the same block")
+				continue
+			}
+			// a way in without them, and a way out without them
+			in, _ := cfgx.ReachesAvoidingBlocks(entryEdges(ae), x.Block(), through, nil, nil)
+			var outE []cfgx.Edge
+			for k := range x.Block().Succs {
+				outE = append(outE, cfgx.Edge{From: x.Block(), Idx: k})
+			}
+			out := false
+			var w []string
+			for _, b := range ae.Blocks {
+				if r, ok := b.Instrs[len(b.Instrs)-1].(*ssa.Return); ok {
+					if len(outE) == 0 && b == x.Block() {
+						out = true
+					}
+					if rr, ww := cfgx.ReachesAvoidingBlocks(outE, r.Block(), through, nil, c.posf()); rr {
+						out, w = true, ww
+					}
+				}
+			}
+			c.R.Check(!(in && out), site(x)+" with constraints", c.pos(x.Pos()), "every path that records the edge also hands the parent's constraints to the node", "an edge can be recorded without the parent's constraints reaching the node", w...)
+		}
+		if n == 0 {
+			c.R.Unknown(load.FuncName(ae)+": AddNeighbors", c.pos(ae.Pos()), "no AddNeighbors call found")
+		}
+	}
+
 }
 
 func isEmptyStringConst(v ssa.Value) bool {
